@@ -699,12 +699,15 @@ void do_op(string op) {
     break;
   case "catch":   // catch <id> <script>: LPC catch with a frame check afterwards
     {
-      mixed r; object to, tp, po; string mark; int k;
-      to = this_object(); tp = this_player(); po = previous_object(); mark = "M" + a[1]; k = 4711;
+      mixed r; string to, tp, po, mark; int k;
+      // who we are, who called and who the command giver is, by name: a destruct started inside the script wipes object
+      // references from the value stack at once, also when a hook aborts it and the object lives on
+      to = file_name(this_object()); tp = this_player() ? file_name(this_player()) : "0"; po = previous_object() ? file_name(previous_object()) : "0"; mark = "M" + a[1]; k = 4711;
       rec("CATCHIN " + a[1]);
       r = catch(run(sub(implode(a[2..], " "))));
-      if (to != this_object() || tp != this_player() || po != previous_object() || mark != "M" + a[1] || k != 4711)
-        rec("CATCHBAD " + a[1]);
+      // (an object that the script destructed reads as 0 afterwards: that is the script's side effect, not a frame left wrong)
+      if (to != file_name(this_object()) || (this_player() && tp != file_name(this_player())) || (previous_object() && po != file_name(previous_object())) || mark != "M" + a[1] || k != 4711)
+        rec("CATCHBAD " + a[1] + " " + (to != file_name(this_object()) ? "to" : "") + (this_player() && tp != file_name(this_player()) ? "tp" : "") + (previous_object() && po != file_name(previous_object()) ? "po" : "") + (mark != "M" + a[1] ? "mark" : "") + (k != 4711 ? "k" : ""));
       rec("CATCH " + a[1] + " " + (stringp(r) ? replace_string(r, "\n", "") : (r ? "val:" + typeof(r) : "0")));
     }
     break;
